@@ -66,8 +66,10 @@ func (v *sxView) isPayloadTerm(t Term) bool {
 }
 
 // stringHelperClass analyses a helper func(string) string as a string encoder (SX): accepted shapes
-//   b, _ := json.Marshal(x); return string(b)
-//   enc := json.NewEncoder(&buf) [enc.SetEscapeHTML(false)] enc.Encode(x); return strings.TrimSuffix(buf.String(), "\n")
+//
+//	b, _ := json.Marshal(x); return string(b)
+//	enc := json.NewEncoder(&buf) [enc.SetEscapeHTML(false)] enc.Encode(x); return strings.TrimSuffix(buf.String(), "\n")
+//
 // with buf any local io.Writer with a String() method (bytes.Buffer, strings.Builder).
 func (c *Ctx) stringHelperClass(fn *types.Func) (class, why string) {
 	if cls := stringEncoderClass(fn.FullName()); cls != "" {
